@@ -19,15 +19,82 @@ var wsSet = isetOf(' ', '\t', '\n', '\r')
 
 // lexCommonDispatch returns, per arm of LexCommon's main switch, its constant
 // set and body, plus the switch itself.
+// lexCommonSkipper: set by lexCommonSwitch when the rune LexCommon dispatches on
+// is handed back by a helper that skips the white space (its declaration, and
+// the locals it assigns from Next()).
+var lexCommonSkipper *ast.FuncDecl
+var lexCommonSkipperVars map[types.Object]bool
+
+// lexCommonSkipSwitch: the switch that holds the white-space skipping arm, and
+// the function it stands in: the dispatch switch of LexCommon, or the switch
+// on the rune just read in the skipping helper.
+func lexCommonSkipSwitch(w *World) (*ast.FuncDecl, *packages.Package, *ast.SwitchStmt) {
+	fd, p, sw := lexCommonSwitch(w)
+	hasSkip := false
+	for _, a := range switchArms(p, sw) {
+		if len(a.Clause.Body) == 1 {
+			if b, ok := a.Clause.Body[0].(*ast.BranchStmt); ok && b.Tok == token.CONTINUE {
+				hasSkip = true
+			}
+		}
+	}
+	if hasSkip || lexCommonSkipper == nil {
+		return fd, p, sw
+	}
+	vars := lexCommonSkipperVars
+	sws := switchesOn(lexCommonSkipper.Body, func(e ast.Expr) bool { return vars[objOfIdent(p, e)] })
+	if len(sws) != 1 {
+		return fd, p, sw
+	}
+	return lexCommonSkipper, p, sws[0]
+}
+
 func lexCommonSwitch(w *World) (*ast.FuncDecl, *packages.Package, *ast.SwitchStmt) {
 	f := w.Func("xpath", "LexCommon")
 	fd, p := w.FuncDecl(f)
 	next := w.interfaceMethod("xpath", "XpathLexer", "Next")
 	// the subject: a local assigned from x.Next()
 	var subj types.Object
+	lexCommonSkipper = nil
+	// x.Next(), or a function of the package that hands back a rune it read with Next() (the
+	// white-space skipping moved out of LexCommon)
+	var readsNext func(ce *ast.CallExpr, depth int) bool
+	readsNext = func(ce *ast.CallExpr, depth int) bool {
+		g := calleeOf(p, ce)
+		if g == next {
+			return true
+		}
+		if g == nil || depth > 0 || g.Pkg() != p.Types {
+			return false
+		}
+		gfd, gp := w.FuncDecl(g)
+		if gfd == nil || gp != p || gfd.Body == nil {
+			return false
+		}
+		fromNext := map[types.Object]bool{}
+		ast.Inspect(gfd.Body, func(n ast.Node) bool {
+			if as, ok := n.(*ast.AssignStmt); ok && len(as.Rhs) == 1 && len(as.Lhs) == 1 {
+				if c2, ok := as.Rhs[0].(*ast.CallExpr); ok && calleeOf(p, c2) == next {
+					fromNext[objOfIdent(p, as.Lhs[0])] = true
+				}
+			}
+			return true
+		})
+		rets := returnsIn(gfd.Body)
+		for _, ret := range rets {
+			if len(ret.Results) != 1 || !fromNext[objOfIdent(p, ret.Results[0])] {
+				return false
+			}
+		}
+		if len(rets) > 0 {
+			lexCommonSkipper = gfd
+			lexCommonSkipperVars = fromNext
+		}
+		return len(rets) > 0
+	}
 	ast.Inspect(fd.Body, func(n ast.Node) bool {
 		if as, ok := n.(*ast.AssignStmt); ok && len(as.Rhs) == 1 && len(as.Lhs) == 1 {
-			if ce, ok := as.Rhs[0].(*ast.CallExpr); ok && calleeOf(p, ce) == next {
+			if ce, ok := as.Rhs[0].(*ast.CallExpr); ok && readsNext(ce, 0) {
 				if o := objOfIdent(p, as.Lhs[0]); o != nil && subj == nil {
 					subj = o
 				}
@@ -81,7 +148,7 @@ func (w *World) concreteMethod(pkgKey, typ, name string) *types.Func {
 }
 
 func c03Whitespace(w *World, r *Report) {
-	fd, p, sw := lexCommonSwitch(w)
+	fd, p, sw := lexCommonSkipSwitch(w)
 	// 1. the skip arm
 	var skipArms []swArm
 	for _, a := range switchArms(p, sw) {
